@@ -43,6 +43,10 @@ ASSUMPTIONS = [
     "Tolerances for weights, mean, std, cdf follow rigorously from "
     "multiplying each weight by exp(+-Delta_i/2); plus 64 n u max|x| for "
     "the summations",
+    "x values are 0 or >= 1e-100 in magnitude; weights below 2.2e-308 are "
+    "denormal: each weight, each product x_i w_i and the sums carry an "
+    "absolute error of up to 5e-324, which enters the tolerances divided by "
+    "the total weight (it only matters when all weights are < 1e-290)",
     "weights underflow in double precision near chi2/2 = 745: NaN is "
     "demanded when min chi2/2 over the window > 746 (+Delta), a number when "
     "it is < 700; in between both are accepted (label underflow-transition)",
@@ -216,18 +220,25 @@ def expected_stats(chi, delta, x, n_all):
     xmax = float(np.abs(x).max()) if x.size else 0.0
     rt = 64.0 * (n_all + 8) * U
     tmean = wavg_tol(w, E, lo, xl, mean)
-    tol_mean = float(tmean) + rt * xmax + 1e-300
+    # weights below 2.2e-308 are denormal in double precision: every weight
+    # (and their sum) carries an absolute error of up to 5e-324
+    xr = float(x.max() - x.min()) if x.size else 0.0
+    den = min(float(2 * x.size * LD(5e-324) / W), 1.0) if W > LD(1e-320) else 1.0
+    # ... and so does every product x_i * w_i, (x_i - mean)^2 * w_i
+    und = float(2 * x.size * LD(5e-324) / W) if W > LD(1e-320) else np.inf
+    tol_mean = float(tmean) + rt * xmax + den * xr + und + 1e-300
     tvar = float(wavg_tol(w, E, lo, (xl - mean) ** 2, var)) + float(tmean) ** 2
     # typhon: var' = avg'((x - mean')^2), mean' carries rounding of its own
     tvar += rt * (float(var) + xmax * (float(std) + rt * xmax)) + (rt * xmax) ** 2
     tvar += 1e-290          # (x - mean)^2 underflows below 1e-154
+    tvar += den * xr * xr + und
     if float(std) > 0:
         tol_std = min(tvar / float(std), np.sqrt(tvar))
     else:
         tol_std = np.sqrt(tvar)
     return {"mean": float(mean), "std": float(std), "tol_mean": tol_mean,
             "tol_std": float(tol_std) + 1e-300, "w": w, "W": W,
-            "tolF": float((w * E).sum() / (w * lo).sum()) + rt}
+            "tolF": float((w * E).sum() / (w * lo).sum()) + rt + den}
 
 
 def nan_status(chi, delta):
@@ -421,16 +432,14 @@ def check_instance(ctx, BMCI, y, x, S, case, tag, full):
             ux = xs_ref[last]
             uG = G[last].astype(float)
             for tau, qv in zip(taus, q):
-                # G(largest x < q) <= tau <= G(smallest x >= q), for q or
-                # a value within the rounding error of the interpolation
+                # q must lie in some [x_j, x_j+1] with G(x_j) <= tau <=
+                # G(x_j+1) (the interpolated inverse cdf), up to tolF / rounding
                 slack = 1e-12 * max(rng, abs(qv))
-                okq = False
-                for qq in (qv, qv - slack, qv + slack):
-                    ja = int(np.searchsorted(ux, qq, side="left"))
-                    jb = ja - 1
-                    okq = okq or (
-                        (jb < 0 or uG[jb] <= tau + tolF)
-                        and ja < len(ux) and uG[ja] >= tau - tolF)
+                k1 = int(np.searchsorted(uG, tau - tolF, side="left"))
+                k2 = int(np.searchsorted(uG, tau + tolF, side="right"))
+                lower = ux[max(k1 - 1, 0)]
+                upper = ux[min(k2, len(ux) - 1)]
+                okq = lower - slack <= qv <= upper + slack
                 ctx.check(okq, "quantiles/not-the-weighted-quantile", lambda: (
                     "%s: tau=%r -> %r; window x %r with cdf %r" % (
                         where, tau, qv, ux[:12], uG[:12])))
